@@ -329,7 +329,13 @@ def c13_7(ctx):
     ctx.check(ok, 'count:operandless-variant', iv.site(), 'operands given to a variant without operands mean no match', '')
 
 
-RULES = [c13_1, c13_2, c13_3, c13_4, c13_5, c13_6, c13_7]
+def c13_macros(ctx):
+    """Macros choose their variant through the same selection as instructions (C10.3): same operand split, same order."""
+    from rules.c10 import c10_3
+    c10_3(ctx)
+
+
+RULES = [c13_1, c13_2, c13_3, c13_4, c13_5, c13_6, c13_7, c13_macros]
 
 _GI = 'assembler/bytecode/generator/instruction.py'
 _OPF = 'assembler/model/operand_parser.py'
